@@ -4,6 +4,7 @@ import (
 	"fmt"
 	"go/token"
 	"go/types"
+	"os"
 	"path/filepath"
 	"strings"
 
@@ -27,7 +28,24 @@ type csvWriter struct {
 
 // fileObj: a file of the modelled file system. Its content is a list of CSV records (what the
 // export writes and the import reads); gzip is the identity on it.
-type fileObj struct{ records [][]value }
+type fileObj struct {
+	records [][]value
+	// old: what the file held when it was opened for writing without O_TRUNC / O_APPEND: writes then
+	// start at offset 0 and whatever the new content does not cover stays behind it.
+	old [][]value
+}
+
+// effective is the file's content as a reader sees it (record-level approximation of the byte-level
+// overwrite: a longer earlier content leaves its surplus records behind the new ones).
+func (f *fileObj) effective() [][]value {
+	if len(f.old) > len(f.records) {
+		return append(append([][]value{}, f.records...), f.old[len(f.records):]...)
+	}
+	return f.records
+}
+
+// staleTail: earlier content is left behind the new content (for a compressed file: trailing garbage).
+func (f *fileObj) staleTail() bool { return len(f.old) > len(f.records) }
 
 const modelCwd = "/vhdb-model/cwd"
 
@@ -222,6 +240,46 @@ func (P *Program) registerCSV() {
 		in.path.noteAssumption("files are record lists in a model file system (os.Create/Open/Remove, csv, gzip = identity)")
 		return tuple{fileValue(f), iface{}}
 	})
+	P.reg("os.OpenFile", func(fr *frame, args []value) value {
+		in := fr.in
+		ft, ok := args[1].(*smt.Term)
+		if !ok || !ft.IsConst() {
+			panic(unsupported{"os.OpenFile with symbolic flags"})
+		}
+		flag := int(ft.I64())
+		k := in.fsKey(args[0])
+		in.path.noteAssumption("files are record lists in a model file system (os.Create/Open/OpenFile/Remove, csv, gzip = identity); opening an existing file for writing without O_TRUNC leaves the records the new content does not cover")
+		var nilFile *value
+		ex, exists := in.fs()[k]
+		if !exists {
+			if flag&os.O_CREATE == 0 {
+				return tuple{nilFile, in.mkError("open: no such file or directory")}
+			}
+			f := &fileObj{}
+			in.fs()[k] = f
+			return tuple{fileValue(f), iface{}}
+		}
+		if flag&os.O_CREATE != 0 && flag&os.O_EXCL != 0 {
+			return tuple{nilFile, in.mkError("open: file exists")}
+		}
+		writing := flag&(os.O_WRONLY|os.O_RDWR) != 0
+		switch {
+		case !writing:
+			return tuple{fileValue(ex), iface{}}
+		case flag&os.O_TRUNC != 0:
+			f := &fileObj{}
+			in.fs()[k] = f
+			return tuple{fileValue(f), iface{}}
+		case flag&os.O_APPEND != 0:
+			f := &fileObj{records: append([][]value{}, ex.effective()...)}
+			in.fs()[k] = f
+			return tuple{fileValue(f), iface{}}
+		default:
+			f := &fileObj{old: ex.effective()}
+			in.fs()[k] = f
+			return tuple{fileValue(f), iface{}}
+		}
+	})
 	P.reg("os.Open", func(fr *frame, args []value) value {
 		in := fr.in
 		if f, ok := in.fs()[in.fsKey(args[0])]; ok {
@@ -246,11 +304,20 @@ func (P *Program) registerCSV() {
 	})
 	copyFile := func(fr *frame, args []value) value {
 		src, dst := fileOfValue(args[0]), fileOfValue(args[1])
-		dst.records = append([][]value{}, src.records...)
+		dst.records = append([][]value{}, src.effective()...)
 		return iface{}
 	}
-	for _, n := range []string{"gzipFastCompress", "gzipCompress", "gzipDecompress", "gzipDecompressWithBuffer"} {
+	for _, n := range []string{"gzipFastCompress", "gzipCompress"} {
 		P.reg(DBP+"."+n, copyFile)
+	}
+	decompress := func(fr *frame, args []value) value {
+		if fileOfValue(args[0]).staleTail() {
+			return fr.in.mkError("gzip: invalid header") // earlier bytes left behind the compressed stream
+		}
+		return copyFile(fr, args)
+	}
+	for _, n := range []string{"gzipDecompress", "gzipDecompressWithBuffer"} {
+		P.reg(DBP+"."+n, decompress)
 	}
 	P.reg("path/filepath.Clean", func(fr *frame, args []value) value {
 		if s, ok := args[0].(string); ok {
@@ -333,7 +400,7 @@ func (P *Program) registerCSV() {
 		src := args[0].(iface)
 		if p, ok := src.v.(*value); ok && p != nil {
 			if o, ok := (*p).(*opaque); ok && o.kind == "os.File" {
-				var cell value = &opaque{kind: "csv.Reader", data: &csvReader{records: o.data.(*fileObj).records}}
+				var cell value = &opaque{kind: "csv.Reader", data: &csvReader{records: o.data.(*fileObj).effective()}}
 				return &cell
 			}
 		}
